@@ -163,11 +163,11 @@ class HistArith(Hist):
             # the caller hands over the circuit's own (live) input list, as generate_* front ends do
             chosen = host.real.inputs
             self.res.stats.probes.bump('gadget-operands-are-the-live-input-list')
-        if chosen and chosen is not host.real.inputs and rng.random() < 0.05:
+        if chosen and chosen is not host.real.inputs and rng.random() < 0.08:
             # an operand gate with an unusual but legal label (Label is any str): empty, blank, or spelled like a
             # placeholder the generators use internally
-            odd = rng.choice(('', ' ', 'inf_label', '_PLACEHOLDER_STR_', 'None', '0', 'new_0'))
-            x = chosen[rng.randrange(len(chosen))]
+            odd = rng.choice(('', '', '', ' ', 'inf_label', '_PLACEHOLDER_STR_', 'None', '0', 'new_0'))
+            x = chosen[rng.choice((0, -1, rng.randrange(len(chosen))))]
             if odd not in pre.gates:
                 try:
                     host.real.rename_gate(x, odd)
@@ -1047,6 +1047,8 @@ def build_specs(eng):
             rl = None
             if use_labels:
                 rl = [f'z{eng.opi}_{i}' for i in range(out_len)]
+                if rng.random() < 0.08 and not host.has_gate(''):
+                    rl[rng.randrange(len(rl))] = ''
                 if getattr(eng, 'taken_label', None) is not None:
                     rl[rng.randrange(len(rl))] = eng.taken_label
                     eng.taken_label_used = True
@@ -1102,6 +1104,8 @@ def build_specs(eng):
             kw = {}
             if use_label:
                 kw['result_label'] = f'ite{eng.opi}'
+                if rng.random() < 0.1 and not host.has_gate(''):
+                    kw['result_label'] = ''  # the empty string is a label like any other
                 if getattr(eng, 'taken_label', None) is not None:
                     kw['result_label'] = eng.taken_label
                     eng.taken_label_used = True
@@ -1136,6 +1140,8 @@ def build_specs(eng):
                 kw = {}
                 if use_labels:
                     kw['result_labels'] = [f'pw{eng.opi}_{i}' for i in range(n)]
+                    if n and rng.random() < 0.1 and not host.has_gate(''):
+                        kw['result_labels'][rng.randrange(n)] = ''
                     if n and getattr(eng, 'taken_label', None) is not None:
                         kw['result_labels'][rng.randrange(n)] = eng.taken_label
                         eng.taken_label_used = True
